@@ -123,6 +123,8 @@ def gen_cases(tier, seed):
     # insertions during which an allocation fails (judged by the monitor only: the model does not allocate)
     for k in range(150 if tier == "quick" else 1500):
         pool = ["a", "c", "e", "zz", "".join(chr(rng.randint(97, 122)) for _ in range(rng.randint(1, 6)))]
+        if k % 3 == 0:
+            pool.append("")      # the empty string is a string like any other (and what a buffer holds before it is filled)
         lines = ["new %d" % rng.choice([0, 1, 2])]
         qq = "q " + " ".join(hexs(v) for v in pool)
         for _ in range(rng.randint(3, 25)):
